@@ -152,6 +152,20 @@ def run(ctx, rep):
                               'destination directory cannot take the entry (e.g. a full fixed-size root) the call fails '
                               'with a non-I/O error and the file is lost')
 
+    # ---------------- R1.8 rename does its work: no Ok exit of Dir::rename avoids both the worker and the recursion
+    RNP = facts.fns.get('fatfs::dir::Dir::rename')
+    if RNP is None:
+        rep.machinery('ANCHOR-MISSING Dir::rename')
+    else:
+        from analyses import error_blocks
+        m8 = Must(facts, lambda f, b, t, names: bool(names & {'fatfs::dir::Dir::rename_internal', 'fatfs::dir::Dir::rename'}))
+        ok8, rets8 = m8.passes(RNP, set())
+        rep.oblige('R1.8', RNP.name, ok=ok8, nontrivial=True)
+        if not ok8:
+            rep.violation('R1.8', vkey('R1.8', RNP.name, 'does-the-work', ''), RNP.loc(RNP.span),
+                          'Dir::rename can return Ok without having run rename_internal (or recursed into a sub-directory): '
+                          'a successful rename / move that changed nothing, or that skipped the existence checks')
+
     # ---------------- R1.5
     n5 = 0
     for short in PATH_FNS:
